@@ -27,10 +27,10 @@ def EvsInv (P : Event → Prop) : List Event → Code → Prop
   | [], _ => True
   | e :: es, c => P e ∧ (∀ v, e.vec? = some v → ¬ v.complete → es = [] ∧ c ≠ .ok) ∧ EvsInv P es c
 
-structure RInv (fx : Bool) (P : Event → Prop) (r : Result) : Prop where
+structure RInv (fx fm : Bool) (P : Event → Prop) (r : Result) : Prop where
   nofuel : r.code ≠ .fuel
   noub : fx = true → r.code.isUb = false
-  msg : r.code ≠ .ok → r.code ≠ .badOptions → r.hasMsg = true
+  msg : r.code ≠ .ok → (r.code ≠ .badOptions ∨ fm = true) → r.hasMsg = true
   evs : EvsInv P r.evs r.code
 
 /-- an error code coming out of a sub-parser: not `fuel`, and no UB in the patched reader -/
@@ -40,14 +40,14 @@ theorem codeOK_plain {fx : Bool} {c : Code} (h : c = .earlyEof ∨ c = .badLine 
     CodeOK fx c := by
   rcases h with h | h | h | h <;> subst h <;> simp [CodeOK, Code.isUb]
 
-theorem rinv_err {fx : Bool} {P : Event → Prop} {c : Code} (h : CodeOK fx c) : RInv fx P (err c) :=
+theorem rinv_err {fx fm : Bool} {P : Event → Prop} {c : Code} (h : CodeOK fx c) : RInv fx fm P (err c) :=
   ⟨h.1, h.2, by simp [err], by simp [err, EvsInv]⟩
 
-theorem rinv_done {fx : Bool} {P : Event → Prop} : RInv fx P done :=
+theorem rinv_done {fx fm : Bool} {P : Event → Prop} : RInv fx fm P done :=
   ⟨by simp [done], by simp [done, Code.isUb], by simp [done], by simp [done, EvsInv]⟩
 
-theorem rinv_cons {fx : Bool} {P : Event → Prop} {e : Event} {r : Result}
-    (he : P e) (hv : e.vec? = none) (hr : RInv fx P r) : RInv fx P (r.cons e) :=
+theorem rinv_cons {fx fm : Bool} {P : Event → Prop} {e : Event} {r : Result}
+    (he : P e) (hv : e.vec? = none) (hr : RInv fx fm P r) : RInv fx fm P (r.cons e) :=
   ⟨hr.nofuel, hr.noub, hr.msg, by
     simp only [Result.cons, EvsInv]
     exact ⟨he, by simp [hv], hr.evs⟩⟩
@@ -71,9 +71,9 @@ theorem checkReader_cases (v : VecOut) (hok : VecOK v) :
         · rename_i h3 h4
           exact .inr ⟨rfl, by simpa using h4, by simpa using h3⟩
 
-theorem rinv_vec {fx : Bool} {P : Event → Prop} {e : Event} {v : VecOut} {k : Unit → Result}
+theorem rinv_vec {fx fm : Bool} {P : Event → Prop} {e : Event} {v : VecOut} {k : Unit → Result}
     (he : P e) (hv : e.vec? = some v) (hok : VecOK v)
-    (hk : v.complete → RInv fx P (k ())) : RInv fx P ((afterVec v k).cons e) := by
+    (hk : v.complete → RInv fx fm P (k ())) : RInv fx fm P ((afterVec v k).cons e) := by
   unfold afterVec
   rcases checkReader_cases v hok with ⟨c, h, h1, h2, h3⟩ | ⟨h, hc⟩
   · rw [h]
